@@ -17,12 +17,15 @@ type Builder struct {
 	stack     []stackEntry      // DFS stack
 	matched   bool              // true if we've reached a match state in current closure
 	matchMask uint32            // slot mask accumulated to reach match state
+	matchEnd  bool              // the match state was reached through an end-of-text assertion
+	atStart   bool              // the closure being computed is the one at position 0
 
 	// DFA state being built
 	numStates  int                     // number of DFA states created
 	table      []Transition            // transition table
 	matchFlags []bool                  // match state flags
 	matchSlots []uint32                // slots to apply at each match state
+	matchAtEnd []bool                  // match state only matches at the end of the input
 	nfaToDFA   map[nfa.StateID]StateID // maps NFA state to DFA state ID
 
 	// Configuration
@@ -34,6 +37,7 @@ type Builder struct {
 type stackEntry struct {
 	nfaID nfa.StateID
 	slots uint32 // slot mask accumulated along epsilon path
+	atEnd bool   // an end-of-text assertion lies on the epsilon path
 }
 
 // Build attempts to build a one-pass DFA from the given NFA.
@@ -73,7 +77,7 @@ func Build(n *nfa.NFA) (*DFA, error) {
 
 	// Build DFA starting from anchored start state
 	startNFA := n.StartAnchored()
-	startDFA, err := b.buildState(startNFA)
+	startDFA, err := b.buildState(startNFA, true)
 	if err != nil {
 		return nil, err
 	}
@@ -89,6 +93,7 @@ func Build(n *nfa.NFA) (*DFA, error) {
 		startState:  startDFA,
 		matchStates: b.matchFlags,
 		matchSlots:  b.matchSlots,
+		matchAtEnd:  b.matchAtEnd,
 		stateCount:  b.numStates,
 	}
 
@@ -106,13 +111,20 @@ func Build(n *nfa.NFA) (*DFA, error) {
 
 // buildState builds a DFA state from the given NFA state's epsilon closure.
 // Returns the DFA state ID or error if not one-pass.
-func (b *Builder) buildState(nfaRoot nfa.StateID) (StateID, error) {
+//
+// atStart is true only for the start state: start-of-text assertions hold in
+// its closure and nowhere else, so that state is never shared with a state
+// reached after consuming input.
+func (b *Builder) buildState(nfaRoot nfa.StateID, atStart bool) (StateID, error) {
 	// Check if already built
-	if sid, ok := b.nfaToDFA[nfaRoot]; ok {
-		return sid, nil
+	if !atStart {
+		if sid, ok := b.nfaToDFA[nfaRoot]; ok {
+			return sid, nil
+		}
 	}
 
 	// Compute epsilon closure with one-pass checking
+	b.atStart = atStart
 	closure, isMatch, err := b.epsilonClosureOnePass(nfaRoot)
 	if err != nil {
 		return 0, err
@@ -129,10 +141,14 @@ func (b *Builder) buildState(nfaRoot nfa.StateID) (StateID, error) {
 	// Store match slots (slots to apply when reaching this match state)
 	if isMatch {
 		b.matchSlots = append(b.matchSlots, b.matchMask)
+		b.matchAtEnd = append(b.matchAtEnd, b.matchEnd)
 	} else {
 		b.matchSlots = append(b.matchSlots, 0)
+		b.matchAtEnd = append(b.matchAtEnd, false)
 	}
-	b.nfaToDFA[nfaRoot] = sid
+	if !atStart {
+		b.nfaToDFA[nfaRoot] = sid
+	}
 
 	// Allocate transition row (initialize to dead state)
 	startIdx := len(b.table)
@@ -151,8 +167,10 @@ func (b *Builder) buildState(nfaRoot nfa.StateID) (StateID, error) {
 
 // closureEntry represents a state in the epsilon closure with accumulated slots.
 type closureEntry struct {
-	nfaID nfa.StateID
-	slots uint32
+	nfaID      nfa.StateID
+	slots      uint32
+	atEnd      bool // reached through an end-of-text assertion: cannot consume input
+	afterMatch bool // lower priority than the match state of this closure
 }
 
 // epsilonClosureOnePass computes epsilon closure while checking one-pass property.
@@ -162,10 +180,13 @@ func (b *Builder) epsilonClosureOnePass(root nfa.StateID) ([]closureEntry, bool,
 	b.seen.Clear()
 	b.matched = false
 	b.matchMask = 0
+	b.matchEnd = false
 	b.stack = b.stack[:0]
 
-	// Start DFS from root
-	if err := b.stackPush(root, 0); err != nil {
+	// Start DFS from root. The stack is popped in thread priority order
+	// (the preferred branch of a split is pushed last), so every entry that
+	// follows the match state in the closure has lower priority than the match.
+	if err := b.stackPush(root, 0, false); err != nil {
 		return nil, false, err
 	}
 
@@ -178,9 +199,10 @@ func (b *Builder) epsilonClosureOnePass(root nfa.StateID) ([]closureEntry, bool,
 
 		nfaID := entry.nfaID
 		slots := entry.slots
+		atEnd := entry.atEnd
 
 		// Save this entry with accumulated slots
-		closure = append(closure, closureEntry{nfaID, slots})
+		closure = append(closure, closureEntry{nfaID, slots, atEnd, b.matched})
 
 		state := b.nfa.State(nfaID)
 		if state == nil {
@@ -197,21 +219,22 @@ func (b *Builder) epsilonClosureOnePass(root nfa.StateID) ([]closureEntry, bool,
 			// Save the slots accumulated to reach match state
 			// These are the capture END positions
 			b.matchMask = slots
+			b.matchEnd = atEnd
 
 		case nfa.StateSplit:
-			// Follow both epsilon paths
+			// Follow both epsilon paths, preferred (left) branch first
 			left, right := state.Split()
-			if err := b.stackPush(left, slots); err != nil {
+			if err := b.stackPush(right, slots, atEnd); err != nil {
 				return nil, false, err
 			}
-			if err := b.stackPush(right, slots); err != nil {
+			if err := b.stackPush(left, slots, atEnd); err != nil {
 				return nil, false, err
 			}
 
 		case nfa.StateEpsilon:
 			// Follow epsilon transition
 			next := state.Epsilon()
-			if err := b.stackPush(next, slots); err != nil {
+			if err := b.stackPush(next, slots, atEnd); err != nil {
 				return nil, false, err
 			}
 
@@ -225,21 +248,41 @@ func (b *Builder) epsilonClosureOnePass(root nfa.StateID) ([]closureEntry, bool,
 			if slotIdx < 32 {
 				slots |= (1 << slotIdx)
 			}
-			if err := b.stackPush(next, slots); err != nil {
+			if err := b.stackPush(next, slots, atEnd); err != nil {
 				return nil, false, err
 			}
 
 		case nfa.StateLook:
-			// Handle anchors (^, $, \A, \z) as epsilon transitions.
-			// For onepass DFA (which is always anchored at start):
-			// - Start anchors (^, \A): Always satisfied - follow epsilon
-			// - End anchors ($, \z): Follow epsilon; match checked at input end
-			_, next := state.Look()
+			// Assertions are resolved at build time where that is possible:
+			// - \A and (?m)^ hold in the closure of the start state (position 0);
+			//   after consumed input \A can never hold, so the path is dead
+			// - \z marks the rest of the path as "end of input only": it cannot
+			//   consume a byte, and a match behind it only counts at the end
+			// Everything else ((?m)^ after consumed input, (?m)$, \b, \B) depends
+			// on neighbouring bytes, which this automaton does not track.
+			look, next := state.Look()
+			switch look {
+			case nfa.LookStartText, nfa.LookStartLine:
+				if !b.atStart {
+					if look == nfa.LookStartLine {
+						return nil, false, ErrNotOnePass
+					}
+					continue
+				}
+			case nfa.LookEndText:
+				atEnd = true
+			default:
+				return nil, false, ErrNotOnePass
+			}
 			if next != nfa.InvalidState {
-				if err := b.stackPush(next, slots); err != nil {
+				if err := b.stackPush(next, slots, atEnd); err != nil {
 					return nil, false, err
 				}
 			}
+
+		case nfa.StateRuneAny, nfa.StateRuneAnyNotNL:
+			// Whole-code-point transitions are not representable here
+			return nil, false, ErrNotOnePass
 
 			// ByteRange and Sparse are not epsilon transitions
 			// They will be handled in buildTransitions
@@ -251,7 +294,7 @@ func (b *Builder) epsilonClosureOnePass(root nfa.StateID) ([]closureEntry, bool,
 
 // stackPush adds an NFA state to the DFS stack.
 // Returns error if state already visited (indicates non-one-pass).
-func (b *Builder) stackPush(nfaID nfa.StateID, slots uint32) error {
+func (b *Builder) stackPush(nfaID nfa.StateID, slots uint32, atEnd bool) error {
 	// An invalid target is a dead end (e.g. the branch of an empty character
 	// class such as [^\x00-\x{10FFFF}]): there is nothing to follow.
 	if nfaID == nfa.InvalidState {
@@ -265,14 +308,16 @@ func (b *Builder) stackPush(nfaID nfa.StateID, slots uint32) error {
 	}
 
 	b.seen.Insert(uint32(nfaID))
-	b.stack = append(b.stack, stackEntry{nfaID, slots})
+	b.stack = append(b.stack, stackEntry{nfaID, slots, atEnd})
 	return nil
 }
 
 // transInfo tracks byte transition info including source slots.
 type transInfo struct {
+	valid     bool
 	targetNFA nfa.StateID
 	slots     uint32 // Slots accumulated from SOURCE epsilon closure
+	matchWins bool   // the state's own match has priority over this transition
 }
 
 // buildTransitions builds byte transitions for a DFA state.
@@ -281,81 +326,66 @@ type transInfo struct {
 // IMPORTANT: Slots are collected from the SOURCE state's epsilon closure
 // (entry.slots), not from the target state. These slots represent capture
 // positions that should be recorded BEFORE consuming the byte.
-//
-//nolint:gocognit // complexity inherent to DFA construction algorithm
 func (b *Builder) buildTransitions(tableIdx int, closure []closureEntry) error {
-	// Track which byte classes have transitions
-	// Key: byte class, Value: target NFA state + source slots
-	byteTransitions := make(map[byte]transInfo)
+	// Per byte class: target NFA state + source slots + priority relative to
+	// the match state. Two different ways to consume the same byte are a
+	// conflict (not one-pass), including equal targets with different slots.
+	var byteTransitions [256]transInfo
+
+	add := func(lo, hi byte, next nfa.StateID, entry closureEntry) error {
+		info := transInfo{valid: true, targetNFA: next, slots: entry.slots, matchWins: entry.afterMatch}
+		// Use int to avoid overflow when hi=255 (byte wraps to 0)
+		for by := int(lo); by <= int(hi); by++ {
+			class := b.nfa.ByteClasses().Get(byte(by))
+			if existing := byteTransitions[class]; existing.valid && existing != info {
+				return ErrNotOnePass
+			}
+			byteTransitions[class] = info
+		}
+		return nil
+	}
 
 	for _, entry := range closure {
 		state := b.nfa.State(entry.nfaID)
-		if state == nil {
+		if state == nil || entry.atEnd {
+			// Behind an end-of-text assertion nothing can be consumed
 			continue
 		}
 
 		switch state.Kind() {
 		case nfa.StateByteRange:
 			lo, hi, next := state.ByteRange()
-			// Use int to avoid overflow when hi=255 (byte wraps to 0)
-			for by := int(lo); by <= int(hi); by++ {
-				class := b.nfa.ByteClasses().Get(byte(by))
-				// Check for conflict
-				if existing, ok := byteTransitions[class]; ok {
-					if existing.targetNFA != next {
-						return ErrNotOnePass
-					}
-					// Merge source slots (multiple paths to same transition)
-					byteTransitions[class] = transInfo{
-						targetNFA: next,
-						slots:     existing.slots | entry.slots,
-					}
-				} else {
-					byteTransitions[class] = transInfo{
-						targetNFA: next,
-						slots:     entry.slots, // SOURCE slots!
-					}
-				}
+			if err := add(lo, hi, next, entry); err != nil {
+				return err
 			}
 
 		case nfa.StateSparse:
 			for _, trans := range state.Transitions() {
-				// Use int to avoid overflow when trans.Hi=255 (byte wraps to 0)
-				for by := int(trans.Lo); by <= int(trans.Hi); by++ {
-					class := b.nfa.ByteClasses().Get(byte(by))
-					// Check for conflict
-					if existing, ok := byteTransitions[class]; ok {
-						if existing.targetNFA != trans.Next {
-							return ErrNotOnePass
-						}
-						byteTransitions[class] = transInfo{
-							targetNFA: trans.Next,
-							slots:     existing.slots | entry.slots,
-						}
-					} else {
-						byteTransitions[class] = transInfo{
-							targetNFA: trans.Next,
-							slots:     entry.slots, // SOURCE slots!
-						}
-					}
+				if err := add(trans.Lo, trans.Hi, trans.Next, entry); err != nil {
+					return err
 				}
 			}
 		}
 	}
 
 	// Build DFA transitions from byte transitions
-	for class, info := range byteTransitions {
+	for class := 0; class < b.stride; class++ {
+		info := byteTransitions[class]
+		if !info.valid || info.targetNFA == nfa.InvalidState {
+			continue
+		}
+
 		// Recursively build target DFA state
-		nextDFA, err := b.buildState(info.targetNFA)
+		nextDFA, err := b.buildState(info.targetNFA, false)
 		if err != nil {
 			return err
 		}
 
 		// Create transition with SOURCE slots (applied at current position BEFORE consuming byte)
-		trans := NewTransition(nextDFA, false, info.slots)
+		trans := NewTransition(nextDFA, info.matchWins, info.slots)
 
 		// Store in table
-		idx := tableIdx + int(class)
+		idx := tableIdx + class
 		if idx >= len(b.table) {
 			return fmt.Errorf("transition table index out of bounds")
 		}
